@@ -6,9 +6,9 @@ from refsub import ref_sub
 
 RULE = ("languages with base-type forests of depth <= 4, 0-3 compound operators of arity 1-2 (co-, contravariant, mixed); canon specifications from root and "
         "non-root base types and nested compound types (depth <= 2), each of the four Top/Bottom inclusion combinations; observed: Language.canon, "
-        "subtypes/supertypes (direct and transitive) of every canonical type, raw TypeOperation.successors under all switch combinations, and the "
+        "subtypes/supertypes (direct and transitive) of every canonical type, raw TypeOperation.successors under all switch combinations, a look-through family (small canons over a three-level and a two-level chain with contravariant / mixed-variance operators and Top/Bottom, where canonical types are linked only through non-canonical ones), and the "
         "rdfs:subClassOf / rdf:type triples of add_vocabulary with and without closure; implementation vs model for canon and successors; oracle: closure of "
-        "the canon under declared subtypes, reachability over direct links == strict reference order, mirroring, vocabulary triples == links; "
+        "the canon under declared subtypes, transitive enumeration == closure of the direct links, reachability over direct links == strict reference order, mirroring, vocabulary triples == links; "
         "non-trivial = the canon has at least one compound type or a chain of three base types; distinct by (language, canon specification, switches)")
 ASSUMPTIONS = ["children / canon sets are compared as sets (iteration order is not observable here; see C19)"]
 TRUSTED = ["harness/refsub.py (oracle)", "enumeration of declared subtypes in this file (oracle)"]
@@ -70,10 +70,47 @@ def run(ctx):
             listed = G.gen_canon(rng, spec, max_items=3, depth=2)
             one_language(ctx, li, spec, ops, listed, top, bottom)
         raw_successors(ctx, li, spec, ops)
+    lookthrough_family(ctx)
     corpus(ctx)
 
 
-def one_language(ctx, li, spec, ops, listed, top, bottom):
+def lookthrough_family(ctx):
+    """small canons in which canonical types are linked only THROUGH non-canonical ones: a three-level chain of base types, a contravariant,
+    a mixed-variance and a covariant operator, one or two listed compound types, Top/Bottom in every combination"""
+    rng = ctx.rng
+    decls = list(G.BUILTIN_DECLS) + [("A", [], None), ("B", [], 5), ("C", [], 6), ("D", [], None), ("E", [], 8),
+        ("K", [False], None), ("M", [False, True], None), ("F", [True], None)]
+    spec = G.LangSpec(decls)
+    ops = spec.build()
+    ctx.setup(spec.sexp(), "ok T")
+    bases = [(5, ()), (6, ()), (7, ()), (8, ()), (9, ())]
+
+    def item():
+        r = rng.random()
+        if r < 0.25:
+            return (10, (rng.choice(bases),))
+        if r < 0.8:
+            return (11, (rng.choice(bases), rng.choice(bases)))
+        if r < 0.9:
+            return (12, (rng.choice(bases),))
+        return rng.choice(bases)
+    A, B, C, D, E = bases
+    fixed = [([(11, (D, A))], True, False), ([(11, (D, D))], True, False), ([(11, (A, A))], True, False), ([(11, (B, C))], True, True),
+             ([(11, (A, A))], False, True), ([(10, (D,))], True, True), ([(11, (E, A))], True, True), ([(11, (D, E)), (12, (B,))], True, True),
+             ([(10, (B,)), D], False, True), ([(11, (D, D))], True, True)]
+    for k in range(16 if ctx.tier == "quick" else 80):
+        if k < len(fixed):
+            listed, top, bottom = fixed[k]
+        else:
+            listed = [item() for _ in range(rng.randint(1, 3))]
+            if rng.random() < 0.5:
+                listed.append(rng.choice(bases))
+            top, bottom = rng.choice([(True, True), (True, True), (True, False), (False, True)])
+        ctx.count("lookthrough_languages")
+        one_language(ctx, ("lt", k), spec, ops, listed, top, bottom, tr_limit=45)
+
+
+def one_language(ctx, li, spec, ops, listed, top, bottom, tr_limit=25):
     from transforge import type as T
     try:
         lang = G.build_language(spec, ops, canon=listed, include_top=top, include_bottom=bottom)
@@ -109,11 +146,11 @@ def one_language(ctx, li, spec, ops, listed, top, bottom):
             break
     # successors of every canonical type: implementation vs model, and collect direct links
     py = {t: G.ty_py(t, ops) for t in canon}
-    sub, sup = {}, {}
+    sub, sup, trans = {}, {}, {}
     for t in canon:
         for up in (False, True):
             for tr in (False, True):
-                if tr and len(canon) > 25:
+                if tr and len(canon) > tr_limit:
                     continue    # the transitive enumeration walks every path: exponential in the canon's height
                 try:
                     res = [G.py_to_data(s, ops) for s in (lang.supertypes if up else lang.subtypes)(py[t], transitive=tr)]
@@ -125,6 +162,23 @@ def one_language(ctx, li, spec, ops, listed, top, bottom):
                     nontrivial=nontrivial, key=(li, line, t, up, tr))
                 if not tr:
                     (sup if up else sub)[t] = set(res)
+                else:
+                    trans[(t, up)] = set(res)
+    # (a') the transitive enumeration is the closure of the direct links (whatever those are)
+    for (t, up), got in trans.items():
+        links = sup if up else sub
+        reach, work = set(), [t]
+        while work:
+            x = work.pop()
+            for s_ in links.get(x, ()):
+                if s_ not in reach:
+                    reach.add(s_)
+                    work.append(s_)
+        if got != reach and not any(x not in links for x in reach):
+            ctx.fail(f"canon (top={top}, bottom={bottom}) of {show(listed)}: the transitive {'super' if up else 'sub'}types of {G.ty_str(t, spec)} are "
+                     f"{show(sorted(got))}, the closure of the direct links is {show(sorted(reach))}",
+                {"check": "transitive-vs-direct", "up": up}, dict(replay, type=t))
+            break
     # (b) reachability over direct subtype links == strict order; mirroring.
     # One failure per (type, class of the offending pair) so that a pair free of Top/Bottom is never hidden behind a known one.
     for t in canon:
